@@ -5,8 +5,8 @@ machine over all token trees).  Decided on the MIR of `indextree_macros::tree` a
   (1) in the final template the `arena` expression and the `root_node` expression are each interpolated exactly once, `arena` first
   (2) the Append template interpolates its node expression exactly once; Parent and Nest interpolate nothing
   (3) Action::Append is constructed at exactly one site (one node per written expression), Parent and Nest at one site each
-  (5) pairing: Nest and its nesting marker are pushed together (control-equivalent), Append dominates Nest, Parent is emitted on the marker arm
-  (6) stack discipline: initial stack = nodes reversed; marker pushed below the children on the stack the loop pops; children reversed, taken from the popped node;
+  (5) [marker-stack algorithm only] pairing: Nest and its nesting marker are pushed together (control-equivalent), Append dominates Nest, Parent is emitted on the marker arm
+  (6) [marker-stack algorithm only] stack discipline: initial stack = nodes reversed; marker pushed below the children on the stack the loop pops; children reversed, taken from the popped node;
       Append carries the popped node's expression
   (7) cursor machine: Append assigns `last = node.append_value(expr, arena)`, Nest assigns `node = last`, Parent assigns `node = <parent of node>`; the block's value is the root id
   (9) generated actions are dropped only by the test for a trailing Parent
@@ -163,18 +163,41 @@ def main(tier):
             if not (adt and adt["kind"] == "struct" and not adt["variants"][0]["fields"]):
                 return False
         return True
+    # Clauses (5) and (6) are necessary conditions of *the marker-stack algorithm* (an explicit work stack whose elements are either a node or a node-less
+    # level marker).  They are applied when the flattening function is of that kind - recognised from the element type of the stack it pops: an enum with a
+    # field-less alternative, or a generic sum instantiated with a field-less local marker struct.  A different flattening algorithm (recursion, a stack of
+    # per-level cursors) is not decided by them: NOTE + undecided_clauses, the other clauses still apply.
+    def _unit_struct(path):
+        ad = prog.adts.get(path)
+        return ad is not None and ad["kind"] == "struct" and not ad["variants"][0]["fields"]
+
+    def _has_marker_alternative(ts):
+        ad = prog.adts.get(ts.split("<", 1)[0])
+        if ad is not None and ad["kind"] == "enum" and len(ad["variants"]) >= 2 and any(not v["fields"] for v in ad["variants"]):
+            return True
+        if "<" in ts:
+            inner = ts[ts.index("<") + 1:ts.rindex(">")]
+            return any(_unit_struct(x.strip()) for x in inner.split(","))
+        return False
+    marker_stack = any(_has_marker_alternative(ts) for ts in stack_tys if ts.split("<", 1)[0] in stack_adts)
+    if not marker_stack:
+        run.extra.setdefault("undecided_clauses", []).append({"clause": "(5)/(6) marker-stack discipline", "reason": "the flattening function does not pop a stack of node-or-marker elements: %s" % sorted(stack_tys)})
+        print("NOTE: C15 clauses (5)/(6) (pairing and stack discipline of the marker-stack algorithm) do not apply to this flattening function (stack element types: %s); not decided" % sorted(stack_tys))
+
+    def ob56(*a_, **k_):
+        return run.ob(*a_, **k_) if marker_stack else False
     markers = [a for adt_ in sorted(stack_adts) for a in rules.aggregates(prog, adt_) if a["fn"] == HK and carries_nothing(a)]
     MARK = {(a["stmt"]["rv"].get("adt"), a["variant"]) for a in markers}
-    run.ob("pairing", "exactly one site builds the nesting marker (a node-less element of the work stack)", len(markers) == 1, key="pairing|nesting marker built at %d sites" % len(markers),
+    ob56("pairing", "exactly one site builds the nesting marker (a node-less element of the work stack)", len(markers) == 1, key="pairing|nesting marker built at %d sites" % len(markers),
            detail={"stack element types": sorted(stack_tys)}, nontrivial="marker")
     if len(nest) == 1 and len(markers) == 1:
-        run.ob("pairing", "the marker push and the Nest action are control-equivalent (one marker per Nest, unconditionally)", cfg.control_equivalent(nest[0]["bb"], markers[0]["bb"]),
+        ob56("pairing", "the marker push and the Nest action are control-equivalent (one marker per Nest, unconditionally)", cfg.control_equivalent(nest[0]["bb"], markers[0]["bb"]),
                key="pairing|Nest and its nesting marker are not pushed together on every path", detail={"nest_bb": nest[0]["bb"], "marker_bb": markers[0]["bb"]}, nontrivial="nest-marker", sample=True)
     if app and nest:
-        run.ob("pairing", "every Nest follows the Append of the node being entered (Append dominates Nest)", cfg.dominates(app[0]["bb"], nest[0]["bb"]),
+        ob56("pairing", "every Nest follows the Append of the node being entered (Append dominates Nest)", cfg.dominates(app[0]["bb"], nest[0]["bb"]),
                key="pairing|a Nest can be emitted without the Append of its node", nontrivial="append-nest")
     if parent and app:
-        run.ob("pairing", "the Parent action is on the marker arm, not on the node arm", not cfg.dominates(app[0]["bb"], parent[0]["bb"]) and not cfg.dominates(parent[0]["bb"], app[0]["bb"]),
+        ob56("pairing", "the Parent action is on the marker arm, not on the node arm", not cfg.dominates(app[0]["bb"], parent[0]["bb"]) and not cfg.dominates(parent[0]["bb"], app[0]["bb"]),
                key="pairing|Parent is emitted on the node arm", nontrivial="parent-arm")
     # (6) stack discipline of the flattening loop (each breach changes nesting or sibling order for some literal)
     calls = [(bi, t, rules.callee_name(t["callee"])) for bi, t in prog.calls(h)]
@@ -186,26 +209,26 @@ def main(tier):
         return any(x[0] == "call" and x[1].endswith(suffix) for x in o)
     collects = [c for c in calls if c[2].endswith("Iterator::collect")]
     init = [c for c in collects if has_call(org(c[1], 0), "Iterator::rev")]
-    run.ob("stack", "the work stack is the literal's nodes in reverse (so that pop() yields textual order)", len(init) == 1,
+    ob56("stack", "the work stack is the literal's nodes in reverse (so that pop() yields textual order)", len(init) == 1,
            key="stack|initial work stack is not nodes.into_iter().map(..).rev().collect()", detail=[sorted(map(str, org(c[1], 0))) for c in collects], nontrivial="init-rev", sample=True)
     pops = [c for c in calls if c[2] == "alloc::vec::Vec::<T, A>::pop"]
     exts = [c for c in calls if c[2].endswith("Extend<T>>::extend")]
     mpush = [c for c in calls if c[2] == "alloc::vec::Vec::<T, A>::push" and any(x[0] == "agg" and (x[1], x[2]) in MARK for x in org(c[1], 1))]
-    if run.ob("stack", "one extend (children), one marker push", len(exts) == 1 and len(mpush) == 1, key="stack|children extend / marker push sites: %d/%d" % (len(exts), len(mpush))):
+    if ob56("stack", "one extend (children), one marker push", len(exts) == 1 and len(mpush) == 1, key="stack|children extend / marker push sites: %d/%d" % (len(exts), len(mpush))):
         e, m = exts[0], mpush[0]
         same_stack = lambda t: any(x[0] == "call" and x[1].endswith("Iterator::collect") and x[2] == init[0][0] for x in org(t, 0)) if init else False
-        run.ob("stack", "marker and children go onto the same stack the loop pops from", same_stack(e[1]) and same_stack(m[1]) and any(same_stack(p_[1]) for p_ in pops),
+        ob56("stack", "marker and children go onto the same stack the loop pops from", same_stack(e[1]) and same_stack(m[1]) and any(same_stack(p_[1]) for p_ in pops),
                key="stack|marker/children are not pushed onto the work stack", nontrivial="same-stack")
-        run.ob("stack", "children are pushed in reverse textual order", has_call(org(e[1], 1), "Iterator::rev"), key="stack|children are not pushed reversed (sibling order would flip)",
+        ob56("stack", "children are pushed in reverse textual order", has_call(org(e[1], 1), "Iterator::rev"), key="stack|children are not pushed reversed (sibling order would flip)",
                detail=sorted(map(str, org(e[1], 1))), nontrivial="child-rev", sample=True)
-        run.ob("stack", "children come from the popped node", any("children" in str(x) for x in rules.origin(prog, h, [c for c in calls if c[0] < e[0] and c[2].endswith("IntoIterator>::into_iter")][-1][1]["args"][0])),
+        ob56("stack", "children come from the popped node", any("children" in str(x) for x in rules.origin(prog, h, [c for c in calls if c[0] < e[0] and c[2].endswith("IntoIterator>::into_iter")][-1][1]["args"][0])),
                key="stack|the pushed children are not the popped node's children", nontrivial="child-src")
-        run.ob("stack", "the marker is pushed before (below) the children", cfg.dominates(m[0], e[0]) and m[0] != e[0], key="stack|nesting marker is not pushed below the children", nontrivial="marker-below")
+        ob56("stack", "the marker is pushed before (below) the children", cfg.dominates(m[0], e[0]) and m[0] != e[0], key="stack|nesting marker is not pushed below the children", nontrivial="marker-below")
     apush = [c for c in calls if c[2] == "alloc::vec::Vec::<T, A>::push" and any(x[0] == "agg" and x[1] == "crate::Action" and x[2] == "Append" for x in org(c[1], 1))]
     if apush:
         agg = [a for a in rules.aggregates(prog, "crate::Action") if a["variant"] == "Append" and a["fn"] == HK][0]
         o = rules.origin(prog, h, agg["stmt"]["rv"]["ops"][0])
-        run.ob("stack", "Append carries the popped node's own expression", any(x[0] == "call" and x[1] == "alloc::vec::Vec::<T, A>::pop" and ".node" in x[3] for x in o),
+        ob56("stack", "Append carries the popped node's own expression", any(x[0] == "call" and x[1] == "alloc::vec::Vec::<T, A>::pop" and ".node" in x[3] for x in o),
                key="stack|Append does not carry the popped node's expression", detail=sorted(map(str, o)), nontrivial="append-src")
     # (7) the generated cursor machine: which variable each template assigns (variable names are read from the declarations, so a consistent rename is fine)
     tt = token_stream(prog, f)
